@@ -38,11 +38,14 @@ CHECKS["C10"] = dict(
          "refine/optimise loop (loop invariant by induction); every listed ratio is in [0,1]; a movable hard module is exactly "
          "translated and/or mirrored (mirrored only if flippable) with the reported centre as its area-weighted centroid. Under the "
          "named, run-time-monitored solver post-condition SolverPost (ratios >= 0, cell rows <= 1+tol, centres in the die): cell "
-         "totals <= 1+tol, centres in the die, fixed modules keep rectangles and own their cells exactly {m:1}. The model is tied to "
+         "totals <= 1+tol, centres in the die, fixed modules keep rectangles and own their cells exactly {m:1}; all of it composed into ONE "
+         "theorem about the value glbfloor returns (glbfloor_correct: rigidity w.r.t. the INPUT netlist across passes, fixed ownership as a "
+         "loop invariant) with the loop instantiated by the C02/C12 refinement model. The model is tied to "
          "tools/glbfloor/optimization.py by replaying every captured extract_solution call through the Lean model (Float and Rat), and "
          "all clauses are evaluated with exact arithmetic on real multiprocess glbfloor runs.",
-    note="GEKKO/IPOPT answer is an input (hypothesis SolverPost, monitored on every instance); refine / must_be_refined / "
-         "create_initial_allocation are parameters (C02/C12/C03); model fidelity sampled, not proved; IEEE rounding executed, not proved; "
+    note="GEKKO/IPOPT answer is an input (hypothesis SolverPost + ConstRespect, monitored on every instance; a run that returns although a "
+         "solve did not report success is a property failure); the start allocation (ValidAlloc, inside the die, FixedOwn) is a hypothesis "
+         "(C03/C01); model fidelity sampled, not proved; IEEE rounding executed, not proved; "
          "runs where GEKKO raises are outside the property.",
     technique="Lean 4 proofs with the solver answer as a parameter + replay of captured solver answers through the model + clause evaluation on real runs",
     design="§7 C10, §11")
@@ -78,9 +81,11 @@ CHECKS["C08"] = dict(
          "exactly its boxes (solve_found_iff / _sound / insat_iff, solver as hypothesis). Tied to the code on every run: captured "
          "constraint sets compared with the model, ALL models of the real CNF enumerated (pysat blocking clauses) against a brute-force "
          "orthogon enumerator written from the property text, and rect.solve's return value checked.",
-    note="That the SAT layer encodes each posted constraint exactly is C07; SAT solver hypothesis; integer areas are inputs; select_box / "
+    note="Composed in Lean with the C07 SAT-layer model (cnf_models_are_orthogons, solve_found_iff_cnf): the statements are about the "
+         "actual generated CNF and the only solver-side hypothesis is SAT-solver correctness; str() injective on coordinates assumed for "
+         "variable names; integer areas are inputs; select_box / "
          "get_alloc checked on outputs only; min-error mode with ratio > 1 and non-zero occupied area; two repairs committed first "
-         "(grid limits, select_box snapping).",
+         "(grid limits, select_box snapping, guarded quality division).",
     technique="Lean 4 proof over linear orders + exhaustive model enumeration of the real CNF + constraint-set correspondence", design="§7 C08")
 
 CHECKS["C17"] = dict(
@@ -92,8 +97,9 @@ CHECKS["C17"] = dict(
          "result lies in [0, small]. Binary64 totality, symmetry, bounds and the 1e-5*r^2 accuracy are decided by directed search "
          "(both tangencies within +-8 ulp, equal / concentric discs, scales 1e-6..1e6) against 60-digit mpmath; the Float model agrees "
          "with the Python bit for bit.",
-    note="libm (sqrt, acos, sin) executed, not proved; NaN/inf/underflow outside the property; float accuracy is searched, not proved; "
-         "the code was repaired first (fix: clamp), the model follows the repaired code.",
+    note="libm (sqrt, acos, sin) executed, not proved; NaN/inf and radii above ~1.3e154 (overflow of **) outside the property; float "
+         "accuracy searched (judged for max r >= 1e-150), not proved; two repairs committed first (clamp; rescaling against underflow of "
+         "2*r*d found by the independent audit) — with the second, total_structural is unconditional for positive radii.",
     technique="Lean 4 real-analysis proof + structural totality proof for all roundings + bit-exact model correspondence + directed float search",
     design="§7 C17")
 CHECKS["C09"] = dict(
@@ -105,7 +111,8 @@ CHECKS["C09"] = dict(
          "run without solving: every Equation of the real Model is compared with the Lean generator node for node (constants bit-equal), "
          "evaluate()/is_equation_met() compared at Float, and an independent exact Legal oracle classifies legal configurations and "
          "configurations violating exactly one clause by a clear margin against is_equation_met of the real Model.",
-    note="GEKKO never runs; variable bounds (lb=0.1) are outside the equations and reported separately; STOG roles taken from the "
+    note="The characterisation is the sandwich Legal_0 <= Sat <= Legal_tau (both strict) — that is what 'up to the documented smoothing "
+         "tolerance' means; GEKKO never runs; variable bounds (lb=0.1) are outside the equations and reported separately; STOG roles taken from the "
          "repository (C06); the 1e-6 comparison tolerance and double evaluation executed, not proved; code repaired first "
          "(fix: branch offsets of hard modules).",
     technique="Lean 4 proof over the reals + node-for-node structural correspondence of the generated constraint system + oracle-classified configurations",
@@ -157,7 +164,8 @@ CHECKS["C14"] = dict(
     text="Partial with respect to floating point, by nature. Machine-checked (Lean 4) for EVERY list of random.uniform results, every "
          "trial count and iteration bound (this discharges the 'all seeds' quantifier): every row returned by spectral_layout_die is an "
          "output of normalize, so every movable module outside the documented |x| <= 1e-9 escape (explicit hypothesis, witnessed real by "
-         "a kernel-checked example, watched at run time: 0 hits) has |c| <= size/2 - r and its disc lies in the die; fixed nodes return "
+         "a kernel-checked example, watched at run time: 0 hits; headline theorems therefore named …_partial) has |c| <= size/2 - r and the disc "
+         "at its OUTPUT position (ghost trace fields tie the witness to the actual output) lies in the die; fixed nodes return "
          "where they were; hard modules are translated rigidly with centroid = assigned centre; masses, flags, shapes, nets unchanged; the "
          "result is exactly one trial's output (best-of-n). The model (with CPython's Neumaier sum()) is bit-exact with the Python on unit "
          "operations, whole spectral_layout_die runs with captured draws (iteration counts equal) and whole spectral_layout runs.",
@@ -239,9 +247,10 @@ CHECKS["C04"] = dict(
          "to the code on every run: loaded object, writer's tree and re-read object compared with the model on generated documents "
          "covering every attribute combination (thorough: all 8732 one-module attribute subsets); Netlist(n.write_yaml()) compared "
          "field-wise with n and a second write compared with the first on the implementation itself.",
-    note="create_stog enters as a function parameter with two explicit assumptions (StogPerm: permutes and only changes roles — C06's "
-         "createStog_perm; StogStable: idempotent on its own output); ruamel text layer pinned by load(dump(tree)) == tree on every sample, "
-         "not proved; rounding tolerance 1e-9; repair committed first (per-region areas, flip).",
+    note="create_stog is the C06 model (stogC06): StogPerm and StogStable (idempotence on its own output) are PROVED, the headline "
+         "corollaries roundtrip_createStog / dump_stable_createStog carry no assumption about it and the driver executes the same function; ruamel text layer pinned by load(dump(tree)) == tree on every sample, "
+         "not proved; rounding tolerance 1e-9; two repairs committed first (per-region areas + flip; order-independent centroid via math.fsum so that the second document is "
+         "bit-identical — compared as strings by the harness).",
     technique="Lean 4 round-trip proof on the parsed-tree model + differential execution + field-wise re-read on the implementation",
     design="§7 C04")
 CHECKS["C05"] = dict(
